@@ -188,7 +188,7 @@ class MainStartDistribution(Contract):
     tu_filter = 'main'
     aux_tus = [('src/main.cpp', 'vfps::'), ('src/PS/PhaseSpace.cpp', 'vfps::')]
     params = ['argc', 'argv']
-    tags = {'C17', 'C09'}
+    tags = {'C17', 'C09', 'C11'}
     ghosts = {'k': 'int', 'n': 'int', 'x': 'int'}
     slice_from = 'grid_t1'
     slice_count = 7
@@ -264,6 +264,18 @@ class MainStartDistribution(Contract):
                     ex.ev(a_, st)
                 except ExtractionError:
                     pass
+            # the requested record (option InitialDistStep, negative = counted from the end) must reach the loader with its value:
+            # compare the argument before and after the implicit conversion to the parameter type (C11)
+            stepn = argn[1]
+            inner = stepn
+            while inner.get('kind') in ('ImplicitCastExpr',) and inner.get('castKind') in ('IntegralCast', 'NoOp', 'LValueToRValue'):
+                inner = inner['inner'][0]
+            try:
+                v_out, v_in = ex.ev(stepn, st), ex.ev(inner, st)
+                ex.oblig(st, 'start_step_reaches_loader_unchanged', v_out.t == v_in.t, 'postcondition', {'C11'},
+                         'the InitialDistStep option value is passed to makePSFromHDF5 without a value-changing conversion (negative values select records from the end)')
+            except ExtractionError:
+                pass
             from vf.state import State
             nfile = State.fresh('h5.grid_size', z3.IntSort())
             st.assume(And(nfile >= 2, nfile <= 65535))
@@ -320,7 +332,7 @@ class MainStartDistribution(Contract):
         return {'setSize': set_size, 'makePSFromHDF5': from_hdf5, 'makePSFromTXT': from_txt, 'reset': reset, 'operator=': assign_ptr,
                 'ctor:vfps::PhaseSpace': Use(PhaseSpaceCtor12Use(), inst=INST), 'make_shared': MakeSharedCopy(),
                 'isOfFileType': fresh_bool, 'empty': fresh_bool, 'printText': noop, 'operator+': strv, 'operator<<': strv, 'str': strv,
-                'getStartDistStep': lambda ex, n, st, objn, argn, this_override=None: IntV(z3.Int('opt:StartDistStep'), parse_type_str('long')),
+                'getStartDistStep': lambda ex, n, st, objn, argn, this_override=None: IntV(z3.Int('opt:StartDistStep'), parse_type_str('long')),       # any int64 the user may give
                 'getGridSize': lambda ex, n, st, objn, argn, this_override=None: ex.args0['ps_bins'],
                 'updateXProjection': Use(UpdateXProjection(), inst=lambda cx: [{'n': cx.ghost_of('n'), 'x': cx.ghost_of('x'), 'k': cx.ghost_of('k')}]),
                 'normalize': Use(Normalize(), inst=lambda cx: [{'n': cx.ghost_of('n'), 'x': cx.ghost_of('x'), 'y': cx.ghost_of('k')}]),
@@ -345,3 +357,134 @@ class MainStartDistribution(Contract):
     @property
     def loops(self):
         return {'x#0': LoopSpec(inv=self._inv('x')), 'y#0': LoopSpec(inv=self._inv('y'))}
+
+
+class MainWiring(Contract):
+    """main(): how the objects of the simulation are wired together (facts of the real AST of main's construction sites).
+
+    * step cycle (C05 order, C12, C08, C03): the wake map reads grid_t1 and writes grid_t2, the RF map grid_t2 -> grid_t1, the drift
+      grid_t1 -> grid_t3, damping/diffusion grid_t3 -> grid_t1 — the roles the control skeleton (specs/mainloop.py) gives to the
+      variables wm/rfm/drm/fpm and to the three grids;
+    * parameter plumbing: each constructor receives the variables that carry the quantity its contract names (rotation angle,
+      slip factors, damping decrement, RF parameters, bucket numbers and spacing, charge scale);
+    * results file (C10): the impedance stored in the file has the frequency axis stored in the file, i.e. it has as many samples
+      as the field whose frequency ruler is written."""
+    name = 'main'
+    tu = 'src/main.cpp'
+    tu_filter = 'main'
+    tags = {'C03', 'C04', 'C05', 'C06', 'C08', 'C10', 'C12', 'C19'}
+
+    # class -> list of (label, expected variable per leading constructor argument, tags)
+    EXPECT = {
+        'WakePotentialMap': [('wake_map', ['grid_t1', 'grid_t2', 'wake_field', 'interpolationtype', 'interpol_clamp'], {'C05', 'C12', 'C08'})],
+        'DriftMap': [('drift_map', ['grid_t1', 'grid_t3', 'slip', 'E0', 'interpolationtype', 'interpol_clamp'], {'C03', 'C05', 'C12', 'C08'})],
+        'FokkerPlanckMap': [('fokker_planck_map', ['grid_t3', 'grid_t1', 'ps_bins', 'ps_bins', 'fptype', 'fptrack', 'e1', 'derivationtype'], {'C04', 'C05', 'C12', 'C08'})],
+        'RFKickMap': [('rf_map.linear', ['grid_t2', 'grid_t1', 'angle', 'f_RF', 'interpolationtype', 'interpol_clamp'], {'C03', 'C05', 'C12', 'C08'}),
+                      ('rf_map.sinusoidal', ['grid_t2', 'grid_t1', 'revolutionpart', 'V_eff', 'f_RF', 'V0', 'interpolationtype', 'interpol_clamp'], {'C03', 'C05', 'C12', 'C08'})],
+        'DynamicRFKickMap': [('dynamic_rf_map.linear', ['grid_t2', 'grid_t1', 'ps_bins', 'ps_bins', 'angle', 'revolutionpart', 'f_RF', 'rf_phase_noise', 'rf_ampl_noise',
+                                                         'rf_mod_ampl', 'rf_mod_step', 'laststep', 'interpolationtype', 'interpol_clamp'], {'C19', 'C03', 'C05', 'C12'}),
+                             ('dynamic_rf_map.sinusoidal', ['grid_t2', 'grid_t1', 'ps_bins', 'ps_bins', 'revolutionpart', 'V_eff', 'f_RF', 'V0', 'rf_phase_noise', 'rf_ampl_noise',
+                                                             'rf_mod_ampl', 'rf_mod_step', 'laststep', 'interpolationtype', 'interpol_clamp'], {'C19', 'C03', 'C05', 'C12'})],
+        'ElectricField': [('radiation_field', ['grid_t1', 'rdtn_impedance', 'bucketnumbers', 0, 'oclh', 'f_rev', 'revolutionpart'], {'C10', 'C06'}),
+                          ('wake_field', ['grid_t1', 'wake_impedance', 'bucketnumbers', 'spacing_bins', 'oclh', 'f_rev', 'revolutionpart', 'Ib', 'E0', 'sE', 'dt'], {'C05', 'C06', 'C10'})],
+        'HDF5File': [('results_file', ['ofname', 'grid_t1', 'rdtn_field', 'wake_impedance', 'trackme', 't_sync', 'f_rev'], {'C10'})],
+    }
+
+    @staticmethod
+    def _argname(a):
+        """the variable an argument expression is rooted in (through casts, &x, x.size(), smart-pointer get), or an integer literal"""
+        from vf.unit import _walk
+        names = [(x.get('referencedDecl') or {}).get('name') for x in _walk(a) if x.get('kind') == 'DeclRefExpr' and (x.get('referencedDecl') or {}).get('kind') in ('VarDecl', 'ParmVarDecl')]
+        if names:
+            return names[0] if len(set(names)) == 1 else tuple(names)
+        lits = [x.get('value') for x in _walk(a) if x.get('kind') == 'IntegerLiteral']
+        if lits and len(lits) == 1:
+            return int(lits[0])
+        return None
+
+    def custom_verify(self, scratch, tc):
+        from vf.vcg import Exec
+        from vf.state import Obligation
+        from vf.unit import _walk
+        from vf.ast import body
+        tu = tc.get(self.tu, self.tu_filter)
+        fn = tu.function('main')
+        ex = Exec(tu, fn, 'main')
+        ex.default_tags = set(self.tags)
+        declared = set(x.get('name') for x in _walk(fn) if x.get('kind') == 'VarDecl')
+        sites = {}
+        for n in _walk(body(fn)):
+            if n.get('kind') in ('CXXConstructExpr', 'CXXTemporaryObjectExpr'):
+                t = n.get('type', {}).get('qualType', '')
+                for cls in self.EXPECT:
+                    if t.replace('vfps::', '') == cls:
+                        sites.setdefault(cls, []).append([self._argname(a) for a in n.get('inner', []) if a.get('kind') != 'CXXDefaultArgExpr'])
+            if n.get('kind') == 'CallExpr':
+                c_ = n['inner'][0]
+                while c_.get('kind') in ('ImplicitCastExpr', 'ParenExpr'):
+                    c_ = c_['inner'][0]
+                if (c_.get('referencedDecl') or {}).get('name') in ('make_unique', 'make_shared'):
+                    t = n.get('type', {}).get('qualType', '')
+                    for cls in self.EXPECT:
+                        if t.replace('vfps::', '').replace(' ', '') in (f'std::unique_ptr<{cls}>', f'std::shared_ptr<{cls}>', f'unique_ptr<{cls}>', f'shared_ptr<{cls}>',
+                                                                       f'typenamestd::_MakeUniq<{cls}>::__single_object', f'typename_MakeUniq<{cls}>::__single_object') or \
+                           (cls in t and ('_MakeUniq' in t or 'unique_ptr' in t or 'shared_ptr' in t) and 'Dynamic' + cls not in t):
+                            sites.setdefault(cls, []).append([self._argname(a) for a in n['inner'][1:] if a.get('kind') != 'CXXDefaultArgExpr'])
+                            break
+        obls = []
+
+        def ob(label, ok, note, tags):
+            obls.append(Obligation(f'main#wiring.{label}', set(tags), [], z3.BoolVal(bool(ok)), 'postcondition', None, note))
+        for cls, variants in self.EXPECT.items():
+            found = sites.get(cls, [])
+            if len(found) != len(variants):
+                raise ExtractionError(f'main: {len(found)} construction sites of {cls}, contract knows {len(variants)}')
+            for label, want, tags in variants:
+                for w in want:
+                    if isinstance(w, str) and w not in declared:
+                        raise ExtractionError(f'main: variable {w} (expected at the construction of {cls}) does not exist any more')
+                # match each expected variant to the site that agrees with it in the most positions
+                best = max(found, key=lambda f_: sum(1 for a_, w_ in zip(f_, want) if a_ == w_))
+                diffs = [(i_, a_, w_) for i_, (a_, w_) in enumerate(zip(best + [None] * len(want), want)) if a_ != w_]
+                ob(label, not diffs, f'{cls}({", ".join(map(str, want))}, ...): ' + ('as expected' if not diffs else 'differs at ' + '; '.join(f'argument {i_ + 1}: {a_} instead of {w_}' for i_, a_, w_ in diffs)), tags)
+        # ---- impedance stored in the file vs frequency axis stored in the file: both come from makeImpedance(nfreqs, ...)
+        calls = {}
+        for n in _walk(body(fn)):
+            if n.get('kind') == 'VarDecl' and n.get('name') in ('wake_impedance', 'rdtn_impedance'):
+                for c_ in _walk(n):
+                    if c_.get('kind') == 'CallExpr' and any((y.get('referencedDecl') or {}).get('name') == 'makeImpedance' for y in _walk(c_['inner'][0])):
+                        calls[n['name']] = c_['inner'][1]
+        if set(calls) != {'wake_impedance', 'rdtn_impedance'}:
+            raise ExtractionError('main: makeImpedance calls for wake_impedance / rdtn_impedance not found')
+
+        def length_term(a):
+            """nfreqs argument as a term over nbuckets, spaced_bins, padded_bins"""
+            nbk, spaced, padded = z3.Ints('nbuckets spaced_bins padded_bins')
+            env = {'spaced_bins': spaced, 'padded_bins': padded}
+            b = a
+            while b.get('kind') in ('ImplicitCastExpr', 'ParenExpr', 'ExprWithCleanups'):
+                b = b['inner'][0]
+            if b.get('kind') == 'ConditionalOperator':
+                cond, x, y = b['inner']
+                cn = self._argname(cond)
+                gt1 = any(z_.get('kind') == 'BinaryOperator' and z_.get('opcode') == '>' for z_ in _walk(cond)) and any(z_.get('kind') == 'IntegerLiteral' and z_.get('value') == '1' for z_ in _walk(cond))
+                if cn in ('filling', 'nbuckets') and gt1:
+                    return z3.If(nbk > 1, length_term(x), length_term(y))
+                raise ExtractionError('main: condition selecting the impedance length not understood')
+            nm = self._argname(b)
+            if nm in env:
+                return env[nm]
+            raise ExtractionError(f'main: impedance length argument {nm} not understood')
+        nbk, spaced, padded = z3.Ints('nbuckets spaced_bins padded_bins')
+        lw, lr = length_term(calls['wake_impedance']), length_term(calls['rdtn_impedance'])
+        # HDF5File(ofname, grid, &rdtn_field, wake_impedance, ...): the frequency axis written is rdtn_field's (built on rdtn_impedance),
+        # the impedance written is wake_impedance and is linked to that axis
+        o = Obligation('main#wiring.stored_impedance_has_the_stored_frequency_axis', {'C10'}, [nbk >= 1, spaced >= 2, padded >= 2],
+                       lw == lr, 'postcondition', None, 'number of samples of the impedance written to /Impedance/data equals that of the field whose frequency ruler is written to /Info/AxisValues_f (its axis0)')
+        obls.append(o)
+        obls.append(Obligation('main#wiring.stored_impedance_axis_single_bucket', {'C10'}, [nbk == 1, spaced >= 2, padded >= 2], lw == lr, 'postcondition', None,
+                               'the same for runs with one bucket (outside the region of the known finding)'))
+        ex.obls = obls + [Obligation('main#wiring.canary', set(), [], z3.BoolVal(False), 'canary', None, '')]
+        info = {'unit': 'main (construction sites)', 'file': self.tu, 'sha': tu.sha, 'cases': 1, 'lines': [None, None], 'extract_s': 0,
+                'facts': {k: [[str(a) for a in s_] for s_ in v] for k, v in sites.items()}}
+        return [ex], info
